@@ -14,7 +14,7 @@ demo_run=$(python3 -c "import json;print(json.load(open('$M/$X.meta.json'))['dem
 pkgs=$(grep '^+++ b/' $M/$X.patch.diff | sed 's#+++ b/##' | xargs -n1 dirname | sort -u | sed 's#^#./#' | tr '\n' ' ')
 res="{}"
 git apply $M/$X.patch.diff || { echo "PATCH DOES NOT APPLY"; exit 2; }
-go build ./... > $OUT/build.log 2>&1; b=$?
+go build ./app/... ./cmd/... ./x/... ./types/... ./wasmbinding/... ./testutil/... > $OUT/build.log 2>&1; b=$?
 go test -vet=off -count=1 $pkgs > $OUT/tests_with.log 2>&1; t=$?
 cp $M/$X.demo_test.go $WT/$demo_path
 ( eval "$demo_run" ) > $OUT/demo_with.log 2>&1; dw=$?
